@@ -16,6 +16,11 @@ pub struct Attempts<R> { p: core::marker::PhantomData<R> }
 #[verifier::reject_recursive_types(R)]
 pub struct Tracked3<R> { p: core::marker::PhantomData<R> }
 pub uninterp spec fn attempts_empty<R>(a: Attempts<R>) -> bool;
+impl<R> Attempts<R> {
+    // BTreeMap::is_empty on the opaque map (so that code consulting it stays within the verified text)
+    #[verifier::external_body]
+    pub fn is_empty(&self) -> (r: bool) ensures r == attempts_empty(*self), { unimplemented!() }
+}
 pub enum SpecialError { SliceOutOfBound(i32, Option<i32>), RepeatTooManyTimes, EmptyStack }
 // Ord::cmp on Position (position.rs:507-515): asserts equal inputs, then compares offsets
 #[verifier::external_body]
